@@ -162,7 +162,12 @@ impl ExternalDevice for TimerDevice {
         match self.time {
             0 => {
                 self.reset_remaining();
-                None
+                // A sampled interval of 0 means no polls pass between two interrupts,
+                // so the interrupt has to trigger on this poll (instead of sampling again on the next one).
+                match self.time {
+                    0 => Some(super::Interrupt::vectored(self.vect, self.priority)),
+                    _ => None
+                }
             },
             1 => {
                 self.time = 0;
